@@ -51,7 +51,8 @@ def build_init():
         outs = run_method(ex, "FraudScores", "__init__", obj, [], {"genuines": gen, "frauds": fra, "nb_easy_genuines": eg, "nb_easy_frauds": ef, "score_class": sclass}, path=path)
         tag = f"[score_class={sclass}]"
         ok_paths = [o for o in outs if not o.raised]
-        err = [o for o in outs if o.raised]
+        # raising paths: in __init__ itself, or in a helper it calls (recorded by the engine with their path condition)
+        err = [(o.path.pc, o.value, o.env["self"]) for o in outs if o.raised] + [(pc, exc, obj) for pc, exc in ex.raises]
 
         def ob(name, goal, hyps, kind="post", meta=None):
             obs.append(Oblig(f"C19/__init__/{name}{tag}", hyps, goal, kind, ("C19",), dict({"key": f"C19/__init__/{name}"}, **(meta or {}))))
@@ -75,19 +76,21 @@ def build_init():
             # no raise => every score within [0,1]
             ob(f"accepted-only-if-all-genuine-scores-in-[0,1]{pt}", Implies(And(0 <= k, k < ng), And(toR(pos.elem(k)) >= 0, toR(pos.elem(k)) <= 1)), hy)
             ob(f"accepted-only-if-all-fraud-scores-in-[0,1]{pt}", Implies(And(0 <= k, k < nf), And(toR(neg.elem(k)) >= 0, toR(neg.elem(k)) <= 1)), hy)
-        for pi_, o in enumerate(err):
+        for pi_, (epc, exc, so) in enumerate(err):
             # raise => ValueError and some score outside [0,1]: the path condition carries the witness of np.any
-            so = o.env["self"]
             pos, neg = so.attrs.get("pos"), so.attrs.get("neg")
+            if not (isinstance(pos, T) and isinstance(neg, T)):
+                ob(f"raises-ValueError/path{pi_}", BoolVal(False), [], "post", {"engine_error": "state at the raise not recognised"})
+                continue
             w1, w2 = ex.new_int("w1"), ex.new_int("w2")
-            ob(f"raises-ValueError/path{pi_}", BoolVal("ValueError" in str(o.value.exc)), [], "post")
+            ob(f"raises-ValueError/path{pi_}", BoolVal("ValueError" in str(getattr(exc, "exc", exc))), [], "post")
             allin = And(Implies(And(0 <= w1, w1 < ng), And(toR(pos.elem(w1)) >= 0, toR(pos.elem(w1)) <= 1)), Implies(And(0 <= w2, w2 < nf), And(toR(neg.elem(w2)) >= 0, toR(neg.elem(w2)) <= 1)))
             # "not all in range": refute that both generic elements are in range for *all* w -- stated as: the hypotheses are
             # inconsistent with every score being in range
             from z3 import ForAll
             i = Int("i!all")
             every = And(ForAll([i], Implies(And(0 <= i, i < ng), And(toR(pos.elem(i)) >= 0, toR(pos.elem(i)) <= 1))), ForAll([i], Implies(And(0 <= i, i < nf), And(toR(neg.elem(i)) >= 0, toR(neg.elem(i)) <= 1))))
-            ob(f"raises-only-if-some-score-outside-[0,1]/path{pi_}", Not(every), o.path.pc)
+            ob(f"raises-only-if-some-score-outside-[0,1]/path{pi_}", Not(every), list(epc))
         for s_ in ex.obligs:
             s_.id = f"C19/__init__/safety:{s_.id}#{len(obs)}{tag}"
             s_.props = ("C19",)
